@@ -38,6 +38,19 @@ spec fn last_wm<T>(s: Seq<StreamElement<T>>) -> Option<Timestamp> decreases s.le
 proof fn lemma_last_wm_push<T>(s: Seq<StreamElement<T>>, e: StreamElement<T>)
     ensures last_wm(s.push(e)) == (match e { StreamElement::Watermark(w) => Some(w), _ => last_wm(s) })
 { assert(s.push(e).drop_last() =~= s); }
+spec fn has_wm<T>(s: Seq<StreamElement<T>>) -> bool { exists|i: int| 0 <= i < s.len() && #[trigger] s[i] is Watermark }
+spec fn has_fr<T>(s: Seq<StreamElement<T>>) -> bool { exists|i: int| 0 <= i < s.len() && #[trigger] s[i] is FlushAndRestart }
+proof fn lemma_has_push<T>(s: Seq<StreamElement<T>>, e: StreamElement<T>)
+    ensures has_wm(s.push(e)) == (has_wm(s) || e is Watermark), has_fr(s.push(e)) == (has_fr(s) || e is FlushAndRestart)
+{
+    let p = s.push(e);
+    if has_wm(s) { let i = choose|i: int| 0 <= i < s.len() && #[trigger] s[i] is Watermark; assert(p[i] is Watermark); }
+    if e is Watermark { assert(p[s.len() as int] is Watermark); }
+    if has_wm(p) { let i = choose|i: int| 0 <= i < p.len() && #[trigger] p[i] is Watermark; if i < s.len() { assert(s[i] is Watermark); } }
+    if has_fr(s) { let i = choose|i: int| 0 <= i < s.len() && #[trigger] s[i] is FlushAndRestart; assert(p[i] is FlushAndRestart); }
+    if e is FlushAndRestart { assert(p[s.len() as int] is FlushAndRestart); }
+    if has_fr(p) { let i = choose|i: int| 0 <= i < p.len() && #[trigger] p[i] is FlushAndRestart; if i < s.len() { assert(s[i] is FlushAndRestart); } }
+}
 // trusted contract of glidesort::sort_with_vec over the deque's contiguous slice
 #[verifier::external_body]
 fn sort_buffer_by_timestamp<T>(buffer: &mut VecDeque<TimestampedItem<T>>, scratch: &mut Vec<TimestampedItem<T>>)
@@ -79,6 +92,9 @@ NEXT_SPEC = r'''
             // no loss, no duplication: every pulled timestamped element is buffered until it is released
             final(self).buffer@.len() + (if r is Timestamped { 1nat } else { 0nat })
                 == old(self).buffer@.len() + count_tsd(Self::pulled(old(self), final(self))),           // #obl:reorder.no_loss_no_duplicate
+            // a pulled watermark / end-of-iteration marker is never swallowed: it is pending (kept) or it is what is returned
+            has_wm(Self::pulled(old(self), final(self))) ==> final(self).last_watermark is Some || r is Watermark,                   // #obl:reorder.pulled_watermark_is_kept_or_emitted
+            has_fr(Self::pulled(old(self), final(self))) ==> final(self).received_end || r is FlushAndRestart,                        // #obl:reorder.pulled_end_marker_is_kept_or_emitted
             // Item / FlushBatch / Terminate pass through unchanged
             (r is Item || r is FlushBatch || r is Terminate) ==> final(self).prev.hist().len() > 0 && r == final(self).prev.hist().last(),   // #obl:reorder.passthrough
             // end of iteration: everything buffered has been released, nothing is carried over
@@ -96,12 +112,14 @@ def build(x):
     nx.text = '#[verifier::exec_allows_no_decreases_clause]\n' + nx.text
     nx.insert_before('while !self.received_end', 'proof { assert(Self::pulled(old(self), self) =~= Seq::<StreamElement<Op::Out>>::empty()); }\n        ')
     nx.insert_before('match self.prev.next() {', 'let ghost h0 = self.prev.hist();\n            ')
-    nx.sub('V-SPEC', r'match self\.prev\.next\(\) \{', 'let __e = self.prev.next();\n            proof { let k = old(self).prev.hist().len() as int; assert(self.prev.hist().skip(k) =~= h0.skip(k).push(__e)); lemma_count_tsd_push(h0.skip(k), __e); lemma_last_wm_push(h0, __e); }\n            match __e {', detail='scrutinee bound to a ghost-visible name `__e` (let-binding of the same expression) so that proof hints can mention the pulled element')
+    nx.sub('V-SPEC', r'match self\.prev\.next\(\) \{', 'let __e = self.prev.next();\n            proof { let k = old(self).prev.hist().len() as int; assert(self.prev.hist().skip(k) =~= h0.skip(k).push(__e)); lemma_count_tsd_push(h0.skip(k), __e); lemma_last_wm_push(h0, __e); lemma_has_push(h0.skip(k), __e); }\n            match __e {', detail='scrutinee bound to a ghost-visible name `__e` (let-binding of the same expression) so that proof hints can mention the pulled element')
     nx.add_loop_spec(1, r'''
             invariant
                 self.inv(), self.prev.hist().len() >= old(self).prev.hist().len(),
                 self.prev.hist().take(old(self).prev.hist().len() as int) =~= old(self).prev.hist(),
                 self.buffer@.len() == old(self).buffer@.len() + count_tsd(Self::pulled(old(self), self)),
+                has_wm(Self::pulled(old(self), self)) ==> self.last_watermark is Some,
+                has_fr(Self::pulled(old(self), self)) ==> self.received_end,
 ''')
     pieces += ["impl<Op> Reorder<Op>\nwhere\n    Op: Operator,\n    Op::Out: Send,\n{", nx, "}"]
     return pieces
